@@ -156,6 +156,26 @@ def gen_yaml(which):
                     {"hg19": ("7", 2001, "+", "M34 I2 M20 D3 M34", -500),
                      "hg38": ("7", 6001, "+", "M90", -500)},
                     al, pseudo="GCP", cn_regions=["e1", "i1", "e2"])
+    elif which == "GD":
+        # variants on the first / last base of regions, structures that break exactly
+        # there (+ strand in hg19, - strand in hg38)
+        regions = {"up": (1, 11), "e1": (11, 31), "e2": (41, 61), "e3": (71, 91),
+                   "down": (91, 121)}
+        al = dict([
+            _A("GD*1.001", "GD*1", []),
+            _A("GD*2.001", "GD*2", [[40, "SNP1", "rs1", "splice"]]),      # last base of i1
+            _A("GD*3.001", "GD*3", [[41, "SNP2", "rs2", "functional"]]),  # first base of e2
+            _A("GD*4.001", "GD*4", [[60, "SNP3", "rs3", "functional"]]),  # last base of e2
+            _A("GD*4.002", "GD*4B", [[60, "SNP3", "rs3", "functional"], [61, "SNP4", "rs4"]]),
+            _A("GD*5.001", "GD*5", [["GDP", "e2-"]]),
+            _A("GD*6.001", "GD*6", [["GDP", "e2+"]]),
+            _A("GD*7.001", "GD*7", [["GD", "deletion:e2"]]),
+            _A("GD*8.001", "GD*8", [[30, "SNP5", "rs5", "functional"]]),  # last base of e1
+        ])
+        y = make_db("GD", 120, 53, regions, [(11, 31), (41, 61), (71, 91)],
+                    {"hg19": ("5", 8001, "+", "M120", -2000),
+                     "hg38": ("5", 3001, "-", "M120", 2000)},
+                    al, pseudo="GDP", cn_regions=["e1", "i1", "e2", "i2", "e3"])
     else:
         raise KeyError(which)
     # resolve symbolic op names against the generated sequence
@@ -191,7 +211,7 @@ def load(which, genome=None):
     """which: 'toy', 'GA'.., or a shipped gene name (lower case)."""
     if which == "toy":
         return Gene(script_path("aldy.tests.resources/toy.yml"), genome=genome)
-    if which in ("GA", "GB", "GC"):
+    if which in ("GA", "GB", "GC", "GD"):
         return Gene(None, name=which, yml=gen_yaml(which), genome=genome)
     return Gene(script_path(f"aldy.resources.genes/{which}.yml"), genome=genome)
 
